@@ -238,12 +238,13 @@ Definition writeEF_nb (x : svar) (t : N) (v : N) : res :=
   else if sf e then fill_with_waiters x v (Ret t RC_SUCCESS None)
   else writeEF_locked_empty x t v.
 
-(* returns newv = operand->u.s.data + inc as a uint64_t (not reduced to 60 bits); the word keeps newv's low 60 bits *)
+(* newv = INT64TOINT60(operand->u.s.data + inc): the sum is computed in 64 bits and reduced to the 60-bit payload; the same
+   newv is stored, returned and handed to the released readers (since /repo 70f90aa) *)
 Definition incrF (x : svar) (t : N) (inc : N) : res :=
   let w := word x in
   let '(_, e) := mwaitc w SYNCFEB_ANY in
   if cf e then Ok x [Ret t RC_TIMEOUT None] else
-  let newv := wrap64 (data_of w + inc) in
+  let newv := INT64TOINT60 (wrap64 (data_of w + inc)) in
   if pf e && sf e then fill_with_waiters x newv (Ret t RC_SUCCESS (Some newv))
   else Ok (mkV (build_unlocked newv (st_of_flags (pf e) (sf e))) (rec x)) [Ret t RC_SUCCESS (Some newv)].
 
